@@ -591,6 +591,20 @@ def c04_check(code, v):
             v.violate("signature", sub, "%s: decoded %r, CPython %r" % (path, got, hdr["params"]))
         if ln != len(hdr["params"]):
             v.violate("signature", "len", "%s: len(args)=%r, CPython %d" % (path, ln, len(hdr["params"])))
+        # a caller editing the mapping it was handed must not change what a fresh decode of the same code says
+        if hdr["params"] and not v.violations:
+            try:
+                m = fn.args.parameters
+                if hasattr(m, "popitem"):
+                    m.popitem()
+                fresh = L.CodeData.from_code(c).type.args
+                got2 = [(n, _KINDS[k]) for n, k in fresh.parameters.items()]
+                if got2 != hdr["params"] or len(fresh) != len(hdr["params"]):
+                    v.violate("signature", "after_caller_edit", "%s: after popitem() on a returned parameters mapping a FRESH decode gives %r (len %r), CPython %r"
+                              % (path, got2, len(fresh), hdr["params"]))
+                v.features["fresh_decode_after_mapping_edit"] += 1
+            except (TypeError, AttributeError):
+                pass  # read-only mapping: nothing to edit
         doc = f.__doc__
         if fn.docstring != doc or type(fn.docstring) is not type(doc):
             v.violate("docstring", "differs", "%s: decoded %r, __doc__ %r" % (path, fn.docstring, doc))
